@@ -75,6 +75,15 @@ def run (w : World) (toks : List String) : World × String :=
     | some m => (w, showNatList (applyOrder w m))
     | none => (w, "bad-op")
   | ["flags"] => (w, showList (fun M => showBool M.training) w.mods)
+  | ["gset", p, v] =>
+    match parseNat? p, parseInt? v with
+    | some p, some v => (setGradVal w p v, "ok")
+    | _, _ => (w, "bad-op")
+  | ["gshare", p, q] =>
+    match parseNat? p, parseNat? q with
+    | some p, some q => (shareGrad w p q, "ok")
+    | _, _ => (w, "bad-op")
+  | ["grads"] => (w, showList (fun P => match P.gval with | some v => toString v | none => "-") w.pars)
   | ["pflags"] => (w, showList (fun P => showBool P.reqGrad ++ showBool P.hasGrad) w.pars)
   | _ => (w, "bad-op")
 
